@@ -139,3 +139,42 @@ PROPS = {
 
 _PENDING = "not claimed yet: the model/theorems for this property are still being built (see DESIGN.md staging)"
 NOT_APPLICABLE = {("C%02d" % i): _PENDING for i in range(1, 21)}
+
+
+# ---- entries delivered by the per-family developments (lib/props_extra/*.py) --------------------
+# Keys of the form "Cxx_<part>" are PARTS of property Cxx: their Coq modules and families are
+# folded into the entry "Cxx" (created if missing); the part's texts are appended.
+import glob as _glob
+import importlib.util as _ilu
+import os as _os
+
+PARTS = {}
+for _f in sorted(_glob.glob(_os.path.join(_os.path.dirname(_os.path.abspath(__file__)), "props_extra", "*.py"))):
+    _spec = _ilu.spec_from_file_location("props_extra_" + _os.path.basename(_f)[:-3], _f)
+    _m = _ilu.module_from_spec(_spec)
+    _spec.loader.exec_module(_m)
+    for _k, _v in _m.PROPS.items():
+        if "_" in _k:
+            PARTS[_k] = _v
+        elif _k in PROPS:
+            PARTS[_k + "_" + _os.path.basename(_f)[:-3]] = _v
+        else:
+            PROPS[_k] = _v
+
+
+def _fold(base, part, partname):
+    base["coq"] = base["coq"] + [m for m in part["coq"] if m not in base["coq"]]
+    base["fams"] = base["fams"] + [f for f in part["fams"] if f not in base["fams"]]
+    base["anchors"] = sorted(set(base["anchors"]) | set(part.get("anchors", [])))
+    base["rule"] = base["rule"] + " | " + part["rule"]
+    base["level_text"] = base["level_text"] + " || [" + partname + "] " + part["level_text"]
+    base["level_note"] = base["level_note"] + " || [" + partname + "] " + part["level_note"]
+    base["technique"] = base["technique"] if part["technique"] in base["technique"] else base["technique"] + "; " + part["technique"]
+
+
+for _k in sorted(PARTS):
+    _pid = _k.split("_")[0]
+    if _pid in PROPS:
+        _fold(PROPS[_pid], PARTS[_k], _k)
+    else:
+        PROPS[_pid] = dict(PARTS[_k])
